@@ -31,6 +31,11 @@ fn main() {
             let p = find(&args[2]);
             core::worker_main(p, tier_of(&args[3]), args[4].parse().unwrap_or(1), args[5].parse().unwrap_or(0), args[6].parse().unwrap_or(1));
         }
+        "c01-transcript" if args.len() >= 3 => {
+            api::init();
+            let case: serde_json::Value = serde_json::from_str(&std::fs::read_to_string(&args[2]).unwrap_or_default()).unwrap_or_default();
+            println!("{}", props::c01::transcript_of(&case).0);
+        }
         "probe" => props::probe(&args[2..]),
         _ => usage(),
     }
